@@ -5,6 +5,7 @@ def run(tier, a=None):
     tg = (['SO2t', 'SE2t', 'SO3t', 'SE3t', 'R3t'] if tier == 'quick' else ALL_TAGS)
     specs = [{'src': 'h_c10.cpp', 'defs': ['TAG=' + t], 'maxpaths': 256} for t in tg]
     specs += [{'src': 'h_c10.cpp', 'defs': ['TAG=' + t, 'OFF=4'], 'maxpaths': 256} for t in (tg if tier != 'quick' else ['SE2t', 'SE3t'])]
+    specs += [{'src': 'h_c10.cpp', 'defs': ['TAG=' + t, 'HAS_ASSO3'], 'filter': 'c10_subviews.*'} for t in (['SE3t'] if tier == 'quick' else ['SE3t', 'SE23t', 'SGal3t'])]
     res = runner.Result('C10', tier)
     res.bounds = ['guard zone of 3 (aligned) / 4 (shifted by one scalar) poison cells on each side of every user buffer', 'groups: ' + ','.join(tg)]
     if a is not None and a.only:
@@ -13,7 +14,7 @@ def run(tier, a=None):
     o = dict(opts(tier, a), structural=True)
     out = runner.run_sym(res, specs, o); runner.finish_sym(res, *out, o)
     # the same symbolic run under AddressSanitizer: reads or writes outside the std::vector backing the user buffer abort the run
-    at = [(s['src'], s['defs'], 'symasan') for s in specs[:len(tg)]]
+    at = [(s['src'], s['defs'], 'symasan') for s in specs[:len(tg)]]  # one ASan run per group
     built = build.build_all(at)
     asan_runs = 0
     for (b, err, secs), s in zip(built, specs):
